@@ -3,8 +3,9 @@
         -> gets=<r,r,…> len=<len(entries)> cur=<len(current)>     r = _ (not ok) | n (nil) | x<hex>
      clientid san x<hex of client_ip> <parsed>      parsed = a (empty param) | u (ParseIP nil) | p<32hex>
         -> x<hex of clientAddr(..).String()>
-     clientid bb <cap> <ev,ev,…>          ev = c<id16hex>:x<hex of client_ip>:<parsed> | a<id16hex>
-        -> <r,r,…>   RemoteAddr() of the connection accepted for each a-event: n | x<hex>
+     clientid bb <cap> <ev,ev,…>          ev = c<id16hex>:x<hex of client_ip>:<parsed> | a<id16hex> | t<k>
+        -> <r,r,…>   RemoteAddr() of the connection accepted for each a-event (new session, first
+                     stream) and t-event (a further stream of the k-th session): n | x<hex>
      clientid bb0 …                       same for the pinned (v0) acceptStreams *)
 From Coq Require Import List NArith Bool Arith String.
 From Snow Require Import Lib.Wire Model.ClientIdRing Model.ClientAddr Model.ServerCarrier.
@@ -65,6 +66,7 @@ Definition ev_parse (t : bytes) : option event :=
       | _ => None
       end
   | 97 :: r => option_map Accept (id_parse r)
+  | 116 :: r => option_map Stream (dec_parse_nat r)
   | _ => None
   end.
 
@@ -91,12 +93,12 @@ Definition run (args : list bytes) : bytes :=
         end
       else if beq o (bs "bb") then
         match dec_parse_nat a, list_parse ev_parse b with
-        | Some cap, Some evs => list_print (map addr_print (ServerCarrier.run cap evs))
+        | Some cap, Some evs => list_print (map (fun c => addr_print (snd c)) (run_conns cap evs))
         | _, _ => ERR_BADCASE
         end
       else if beq o (bs "bb0") then
         match dec_parse_nat a, list_parse ev_parse b with
-        | Some cap, Some evs => list_print (map addr_print (run_v0 cap evs))
+        | Some cap, Some evs => list_print (map (fun c => addr_print (snd c)) (run_conns_v0 cap evs))
         | _, _ => ERR_BADCASE
         end
       else ERR_BADCASE
